@@ -325,7 +325,126 @@ def rule_v1(ck, prog, S):
                  "all 65536 codes map to the prescribed ESR bit; %s" % info, detail=info)
 
 
-def rule_v1b(ck, prog, S):
+def rule_v1_eval(ck, prog, S, tier):
+    """V1 / V1b / V1c decided by evaluating SCPI_ErrorPushEx itself on every error code (sa/interp.py): whatever the code
+    is written like (range table with a loop, switch, if-chain, helper function), the register calls it makes for a given
+    code are computed from the source.  Register accesses are logged, not executed; the queue is a real object so that the
+    overflow path (full queue) is taken when asked for.  Returns False when the function cannot be evaluated (the symbolic
+    rules then decide)."""
+    from sa import interp as I
+    fn = prog.fn("SCPI_ErrorPushEx")
+    esr = prog.enumconst.get("SCPI_REG_ESR")
+    if fn is None or esr is None or "_scpi_t" not in prog.records or "_scpi_error_t" not in prog.records:
+        return False
+    spec = K.load_spec("esr_classes.json")
+    bits = spec["esr_bits"]
+
+    def want_of(code):
+        w = 0
+        for c in spec["classes"]:
+            if c["lo"] <= code <= c["hi"]:
+                w |= bits[c["bit"]]
+        return w
+
+    def mkctx(size, count):
+        ctx = I.zero_object(prog, {"tk": "record", "ct": "struct _scpi_t"})
+        q = ctx.get("error_queue")
+        if not isinstance(q, dict) or not {"size", "count", "wr", "rd", "data"} <= set(q):
+            raise I.Stuck("unexpected error queue layout")
+        q["size"], q["count"], q["wr"], q["rd"] = size, count, count % size, 0
+        q["data"] = I.Ptr([I.zero_object(prog, {"tk": "record", "ct": "struct _scpi_error_t"}) for _ in range(size)], 0)
+        return ctx
+    lo, hi = -32768, 32767
+    full = tier == "thorough" and ck.config == "A"
+    dom = list(range(lo, hi + 1)) if full else sorted(K.breakpoints(prog, fn, lo, hi))
+    m = I.Machine(prog, effects={"SCPI_RegSetBits": None, "SCPI_RegSet": None, "SCPI_RegClearBits": None}, max_steps=10 ** 10)
+    got, foreign, notq = {}, None, None
+    try:
+        for code in dom:
+            m.log = []
+            ctx = mkctx(4, 0)
+            m.run(fn, [I.Ptr([ctx], 0), code, 0, 0])
+            b = 0
+            for name, a in m.log:
+                if len(a) >= 3 and a[1] == esr:
+                    if name != "SCPI_RegSetBits":
+                        foreign = foreign or (code, name)
+                    elif isinstance(a[2], int):
+                        b |= a[2]
+            got[code] = b
+            q = ctx["error_queue"]
+            if q["count"] != 1 or q["data"].cont[0].get("error_code") != code:
+                notq = notq or code
+        # the full queue: the library queues its own code and must classify it as well
+        own = {}
+        for code in (-113, -220, 5):
+            m.log = []
+            ctx = mkctx(4, 4)
+            for i_, e_ in enumerate(ctx["error_queue"]["data"].cont):
+                e_["error_code"] = -100 - i_
+            m.run(fn, [I.Ptr([ctx], 0), code, 0, 0])
+            b = 0
+            for name, a in m.log:
+                if len(a) >= 3 and a[1] == esr and name == "SCPI_RegSetBits" and isinstance(a[2], int):
+                    b |= a[2]
+            queued = [e_.get("error_code") for e_ in ctx["error_queue"]["data"].cont]
+            own[code] = (b, queued)
+    except I.Stuck as e:
+        ck.assume("C12-V1: SCPI_ErrorPushEx could not be evaluated (%s); decided by the symbolic table rule instead" % e)
+        return False
+    ck.analysed(fn)
+    how = "all 65536 codes" if full else "%d codes: every region between the constants the classification compares with" % len(dom)
+    # V1b: the class bit is applied with a set-bits call
+    st = K.site(fn, "ESR-class-bit", 0)
+    if foreign:
+        ck.violated("C12-V1b", st, K.loc(fn), "for code %d the event status register is written with %s, which can lower other latched "
+                    "ESR bits; a queued error must only SET the bit of its class" % foreign)
+    else:
+        ck.holds("C12-V1b", st, K.loc(fn), "the event status register is only written with SCPI_RegSetBits (%s)" % how)
+    st = K.site(fn, "insert->classify", 0)
+    if notq is not None:
+        ck.violated("C12-V1b", st, K.loc(fn), "SCPI_ErrorPushEx(ctx, %d) does not leave exactly that code in an empty queue" % notq)
+    else:
+        ck.holds("C12-V1b", st, K.loc(fn), "every code is queued and classified in the same call (%s)" % how)
+    # V1: partition
+    mism = []
+    cur = None
+    for code in dom:
+        g, w = got[code], want_of(code)
+        if g != w:
+            if cur is not None and cur[2] == g and cur[3] == w:
+                cur[1] = code
+            else:
+                cur = [code, code, g, w]
+                mism.append(cur)
+        else:
+            cur = None
+    if mism:
+        for lo_, hi_, g, w in mism[:6]:
+            ck.violated("C12-V1", K.site(fn, "code->ESR-bit[%d..%d]" % (lo_, hi_), 0), K.loc(fn),
+                        "codes %d..%d set ESR bits 0x%02x, the standard prescribes 0x%02x (witness: SCPI_ErrorPush(ctx, %d))"
+                        % (lo_, hi_, g, w, lo_), {"codes": [lo_, hi_], "code_bits": g, "spec_bits": w})
+    else:
+        ck.holds("C12-V1", K.site(fn, "code->ESR-bit", 0), K.loc(fn), "%s map to the prescribed ESR bit" % how)
+    # V1c: the library's own code on overflow
+    for code, (b, queued) in sorted(own.items()):
+        st = K.site(fn, "own-code-on-overflow(%d)" % code, 0)
+        owncodes = [c for c in queued if c is not None and c != code and not (-104 <= c <= -100)]
+        if not owncodes:
+            ck.violated("C12-V1c", st, K.loc(fn), "pushing %d into a full queue leaves %s: no overflow marker is queued" % (code, queued))
+            continue
+        need = 0
+        for c in owncodes:
+            need |= want_of(c)
+        if (b & need) != need:
+            ck.violated("C12-V1c", st, K.loc(fn), "pushing %d into a full queue queues %s on the library's own account, but only ESR bits 0x%02x "
+                        "are set: the class bit 0x%02x of the queued code is missing" % (code, owncodes, b, need))
+        else:
+            ck.holds("C12-V1c", st, K.loc(fn), "full queue: %s queued, ESR bits 0x%02x include its class bit 0x%02x" % (owncodes, b, need))
+    return True
+
+
+def rule_v1b(ck, prog, S, structural_only=False):
     got = K.need(ck, prog, "C12-V1b", "SCPI_ErrorPushEx", "SCPI_ErrorAddInternal")
     if not got:
         return
@@ -349,6 +468,8 @@ def rule_v1b(ck, prog, S):
                     ck.violated("C12-V1b", st2, K.loc(f, c), "queue insertion outside SCPI_ErrorAddInternal")
                 else:
                     ck.holds("C12-V1b", st2, K.loc(f, c))
+    if structural_only:
+        return
     # every path of PushEx from the insertion to the exit evaluates the classification guard
     pg = S.pg(push)
     adds = list(push.calls("SCPI_ErrorAddInternal"))
@@ -732,9 +853,12 @@ def run(ck, fb, tier):
         ck.config = cfg
         prog = fb[cfg]
         S = K.summaries(prog)
-        rule_v1(ck, prog, S)
-        rule_v1c(ck, prog, S)
-        rule_v1b(ck, prog, S)
+        if rule_v1_eval(ck, prog, S, tier):
+            rule_v1b(ck, prog, S, structural_only=True)
+        else:
+            rule_v1(ck, prog, S)
+            rule_v1c(ck, prog, S)
+            rule_v1b(ck, prog, S)
         got = K.need(ck, prog, "C12-V2", "SCPI_RegSet")
         if got:
             model = RegSetModel(got[0], prog)
